@@ -163,6 +163,9 @@ def pick_value(rng, kind_char, n):
     return {"b": True, "i": 7, "u": 7, "f": 2.5, "M": np.datetime64("2001-01-01"), "m": np.timedelta64(5, "s"), "U": "q", "T": "qq", "O": "obj"}.get(kind_char, 1)
 
 
+CALLBACK_SHARES = []
+
+
 def call_frame(rng, df, m, pool):
     """returns (description, thunk result, indices of pool entries used as arguments)."""
     import dataiter as di
@@ -234,10 +237,19 @@ def call_frame(rng, df, m, pool):
         s = some(rng.choice([0, 1, 2])) if rng.random() < 0.8 else []; return f"group_by{s}", df.group_by(*s), []
     if m in ("aggregate", "modify_grouped") and not df._group_colnames and cols:
         df.group_by(*some(2))          # documented: group_by marks the receiver
+    # the frames handed to user functions by the group-wise operations are subsets of the receiver: they are
+    # internal ("internal views kept private", `_view_rows`), so a function that scribbles on or keeps its
+    # argument must not reach the receiver's memory through them
+    def probe(x):
+        for a in arrays_of(x):
+            for b in arrays_of(df):
+                if a.size and b.size and np.shares_memory(a, b):
+                    CALLBACK_SHARES.append(int(a.size))
+        return x.nrow
     if m == "aggregate":
-        c = one(); return f"aggregate(n=count, f=first({c}), g=lambda)", df.aggregate(n=di.count(), f=di.first(c), g=lambda x: x.nrow), []
+        c = one(); return f"aggregate(n=count, f=first({c}), g=lambda)", df.aggregate(n=di.count(), f=di.first(c), g=probe), []
     if m == "modify_grouped":
-        c = one(); return "modify(k=lambda x: x.nrow)", df.modify(k=lambda x: x.nrow), []
+        c = one(); return "modify(k=lambda x: x.nrow)", df.modify(k=probe), []
     if m == "split":
         s = some(2); return f"split{s}", df.split(*s), []
     if m == "map":
@@ -312,6 +324,7 @@ def impl(case):
         ev = {"step": si, "m": step["m"], "on": step["on"], "recv": ri, "recv_origin": recv.origin, "recv_kinds": [str(a.dtype) for a in arrays_of(recv.obj)],
               "recv_size": int(sum(a.size for a in arrays_of(recv.obj)))}
         result, args = None, []
+        del CALLBACK_SHARES[:]
         try:
             if step["on"] == "frame":
                 ev["desc"], result, args = call_frame(rng, recv.obj, step["m"], pool)
@@ -320,6 +333,7 @@ def impl(case):
         except Exception as e:
             ev["err"] = f"{type(e).__name__}: {e}"[:200]
         ev["args"] = args
+        ev["callback_shares"] = len(CALLBACK_SHARES)
         # (1) every pool object is byte-identical (the receiver of an in-place edit / group_by excepted as documented)
         mutated = []
         for i, e in enumerate(pool):
@@ -437,6 +451,8 @@ def judge(ctx, case, obs, mouts):
         for sh in ev.get("poke_back_seen", []):
             who = "receiver" if sh["is_recv"] else "argument"
             ctx.violation("oracle", f"edit-observed-back:{m}:{who}", f"step {ev['step']} {ev.get('desc', m)}: an in-place edit of the {who} changed the result", case, ev)
+        if ev.get("callback_shares"):
+            ctx.violation("oracle", f"callback-view:{m}", f"step {ev['step']} {ev.get('desc', m)}: the group subset handed to the user function shares memory with the receiver", case, ev)
         if m == "group_by" and "err" not in ev and not ev["returned_is_recv"]:
             ctx.violation("oracle", "group_by:not-receiver", "group_by did not return the receiver", case, ev)
         if ev.get("returned") and ev["recv_size"] > 0 and "err" not in ev:
